@@ -102,7 +102,11 @@ def core1():
 
 
 def core2():
-    return _pick(["}", "'}"], ["'"]) + _pick(["|", '#"'], ['"']) + _pick(["{"], ["'"]) + _pick(["}'|"], ['"""'])
+    return _pick(["}"], ["'"]) + _pick(["|", '#"'], ['"']) + _pick(["}'|"], ['"""'])
+
+
+def core2s():
+    return _pick(["'}"], ["'"]) + _pick(['#"|'], ['"'])
 
 
 def core3():
@@ -229,7 +233,7 @@ def grids(tier):
     a2 = atoms(2)
     c1, c2, c3 = core1(), core2(), core3()
     d1 = dedupe(wrap(c1, W))
-    d2 = dedupe(wrap(dedupe(wrap(c2, W)), W))
+    d2 = dedupe(wrap(dedupe(wrap(core2s() if tier == "quick" else c2, W)), W))
     out = [
         ("atoms", a2, SUFFIX4),
         ("depth1", d1, SUFFIX4),
@@ -240,7 +244,7 @@ def grids(tier):
     ]
     if tier == "thorough":
         d2full = dedupe(wrap(d1, W))
-        d3 = dedupe(wrap(dedupe(wrap(dedupe(wrap(c3, W)), W)), W))
+        d3 = dedupe(wrap(dedupe(wrap(dedupe(wrap(c3[:2], W)), W)), W))
         out += [
             ("atoms3", [x for x in atoms(3) if x[0] not in {s for s, _ in a2} and x[0][0] not in "rf"], SUFFIX2),
             ("depth2-core1", d2full, SUFFIX2),
